@@ -7,6 +7,9 @@
 //! from 5000) so that any mix-up between local and remote identifiers shows.
 //! Part B (`c11_listener.rs`): scripted client against the real listener, where the peer picks sparse,
 //! large and reused channel and handle numbers.
+//! Part C (`c11_interleave.rs`): two or three sender links of one session send AT THE SAME TIME from tasks of
+//! their own, so that the frames of two link-split deliveries alternate on the wire (grid of queue sizes and
+//! message sizes + all task schedules within a deviation bound); judged by the same wire monitor.
 //!
 //! Oracle (the statement's words, nothing stricter), all judged on what the scripted peer reads:
 //!  * delivery-ids of a session strictly increase in send order in serial-number arithmetic and are never
@@ -20,6 +23,8 @@
 //!    Receiver that was attached with that handle, exactly once, and by no other Receiver.
 #[path = "c11_listener.rs"]
 mod listener;
+#[path = "c11_interleave.rs"]
+mod interleave;
 
 use fe2o3_amqp::connection::ConnectionHandle;
 use fe2o3_amqp::session::SessionHandle;
@@ -1003,6 +1008,8 @@ pub fn run(ctx: &Ctx) -> Outcome {
     };
     // Part B first (scripted client against the real listener): it gets at most a quarter of the budget
     let lb = listener::run_part_b(ctx, (t0 + Duration::from_secs_f64(ctx.budget_s * 0.25)).min(deadline), &mut out);
+    // Part C (concurrent senders on one session): small, at most a further tenth of the budget
+    let pc = interleave::run_part_c(ctx, (Instant::now() + Duration::from_secs_f64(ctx.budget_s * 0.1)).min(deadline), &mut out);
     let totals = Mutex::new(Totals::default());
     let mut completed: Vec<String> = vec![];
     let mut truncated = false;
@@ -1083,10 +1090,10 @@ pub fn run(ctx: &Ctx) -> Outcome {
     for (sig, detail, rep, _) in t.violations {
         out.violation(sig, detail, rep);
     }
-    out.set("states", (t.states.len() as u64 + lb.states).max(1));
+    out.set("states", (t.states.len() as u64 + lb.states + pc.states).max(1));
     out.set("transitions", t.transitions.len() as u64 + lb.transitions);
-    out.set("traces_validated_against_impl", t.executions + lb.executions);
-    out.set("executions", t.executions + lb.executions);
+    out.set("traces_validated_against_impl", t.executions + lb.executions + pc.executions);
+    out.set("executions", t.executions + lb.executions + pc.executions);
     out.set("events_executed", t.events + lb.events);
     out.set("histories_pruned_disabled_event", pruned);
     out.set("client_part", json!({"executions": t.executions, "events": t.events, "states": t.states.len(), "transitions": t.transitions.len(), "completed": completed, "nontrivial": t.counters.to_json()}));
@@ -1097,22 +1104,25 @@ pub fn run(ctx: &Ctx) -> Outcome {
         );
     }
     out.set("listener_part", lb.summary.clone());
+    out.set("concurrent_senders_part", pc.summary.clone());
     let mut samples = t.samples;
     samples.extend(lb.samples.iter().cloned());
+    samples.extend(pc.samples.iter().cloned());
     out.set("samples", json!(samples));
-    out.set("exhaustive", !truncated && !lb.truncated);
+    out.set("exhaustive", !truncated && !lb.truncated && !pc.truncated);
     out.set(
         "bound",
         format!(
-            "client vs scripted peer: open + begin(session 0), then ALL histories of the stated depth over {} events (begin; end(s); attach(s, sender|receiver, name a|b|c; 'b' links have a max-message-size); detach|close|drop(s,l); send one-frame|transport-split|link-split (s,l); peer transfer to (s,l)) with <= {MAX_SESS} sessions x <= {MAX_LINKS} links, completed: {:?} (alphabet 'deep' = links on session slot 0 only, names a|b, two link slots); listener vs scripted client: {}",
+            "client vs scripted peer: open + begin(session 0), then ALL histories of the stated depth over {} events (begin; end(s); attach(s, sender|receiver, name a|b|c; 'b' links have a max-message-size); detach|close|drop(s,l); send one-frame|transport-split|link-split (s,l); peer transfer to (s,l)) with <= {MAX_SESS} sessions x <= {MAX_LINKS} links, completed: {:?} (alphabet 'deep' = links on session slot 0 only, names a|b, two link slots); listener vs scripted client: {}; {}",
             al.len(),
             completed,
-            lb.bound
+            lb.bound,
+            pc.bound
         ),
     );
     out.set(
         "rule",
-        "states = distinct canonical observable states at quiescence (which sessions/links the application holds, the channel and handle numbers seen on the wire, attached names, last delivery-id and open multi-frame deliveries per session, classes of failures so far); transitions = distinct (state, event, state) triples; every state is reached by executing the real stack. A history with a disabled event is not executed (its enabled prefix is executed as part of every enabled extension)",
+        "states = distinct canonical observable states at quiescence (which sessions/links the application holds, the channel and handle numbers seen on the wire, attached names, last delivery-id and open multi-frame deliveries per session, classes of failures so far); transitions = distinct (state, event, state) triples; every state is reached by executing the real stack; part C adds its distinct (case, order of the handles of the concurrently sent transfer frames) observations to the states. A history with a disabled event is not executed (its enabled prefix is executed as part of every enabled extension)",
     );
     let an: Vec<serde_json::Value> = t.anomalies.iter().map(|(k, (n, ex))| json!({"class": k, "count": n, "example": ex.first()})).collect();
     out.set("unjudged_api_anomalies", json!(an));
@@ -1128,6 +1138,9 @@ fn replay(p: &std::path::Path, mut out: Outcome) -> Outcome {
     let r = if j.get("replay").is_some() { &j["replay"] } else { &j };
     if r["part"] == "B" {
         return listener::replay(r, out);
+    }
+    if r["part"] == "C" {
+        return interleave::replay(r, out);
     }
     let cfg = CFGS.iter().copied().find(|c| r["cfg"] == c.id).unwrap_or(CFGS[0]);
     let al = alphabet();
